@@ -508,6 +508,7 @@ class SQLParser:
                 cast_params.append(cls._pop_as_int(parenthesis_scanner))
             while parenthesis_scanner.search_and_move_one_type_str(","):
                 cast_params.append(cls._pop_as_int(parenthesis_scanner))
+            parenthesis_scanner.close()
             cast_params = tuple(cast_params)
         else:
             cast_params = None
@@ -1105,7 +1106,10 @@ class SQLParser:
         if scanner.get_as_children_scanner().search_one_type_set_use_upper({"SELECT", "WITH"}):
             return cls._parse_sub_query_expression(scanner, sql_type=sql_type)
         if scanner.search_one_type_mark(AMTMark.PARENTHESIS):  # 额外的插入语（因为只有一个元素，所以直接递归解析即可）
-            return cls._parse_table_expression(scanner.pop_as_children_scanner(), sql_type=sql_type)
+            parenthesis_scanner = scanner.pop_as_children_scanner()
+            result = cls._parse_table_expression(parenthesis_scanner, sql_type=sql_type)
+            parenthesis_scanner.close()
+            return result
         return cls._parse_table_name_expression(scanner)
 
     @classmethod
